@@ -171,7 +171,9 @@ func (r *SeqRun) execHistories(hs []*History, tag string) {
 				if seqHangs.Load() >= 6 { // code that deadlocks: every hang is recorded and rejected; do not pay 120 s for each of thousands
 					break
 				}
-				if tw.n > 250000 { // bounded shards: TLC loads a whole trace file
+				// bounded shards: TLC loads a whole trace file (its heap need is several times the file size; crash
+				// images are kilobytes per event, and a dozen validations run side by side)
+				if tw.n > 250000 || tw.bytes > 120<<20 {
 					flush()
 					part++
 					path = filepath.Join(r.Scratch, fmt.Sprintf("trace-%s-%02d-%03d.ndjson", tag, w, part))
